@@ -19,6 +19,13 @@ Streams
              evaluator (`evalCnt` / `c12TagRun`), and the structural reference "every distinct
              operation once" vs `c12PlanL` / `c12RefTally`; oracle: no operation class is
              performed more than once (theorem `tagged_ops_once`).
+  prewrapped lists that ALREADY CONTAIN wrappers (every prefix x scope) whose child, or an operation
+             strictly inside it, recurs elsewhere (bare, commuted, inside / directly under another
+             wrapper, the same wrapper again): tag, evaluate all with one evaluator; handler log,
+             tally and calls vs the Lean counting evaluator; oracle: values, no wrapper around a
+             wrapper, and every operation of the input (wrappers looked through, operands as
+             written) performed once (PV/Properties/C12Wrapped.lean: `unprefixed_wrapper_shares`,
+             `useCount_wrapper_first`; finding `prefixed_wrapper_not_merged_cex`).
 """
 from __future__ import annotations
 
@@ -813,9 +820,10 @@ def same_tree(a, b) -> bool:
         return a is b
 
 
-def check_scalar_wrap(helper, e, prefix, scope, r):
+def check_scalar_wrap(helper, e, prefix, scope, r, component=False):
     """the property sentence for ONE field: constants, variables, subscripts and wrapped nodes stay
-    unwrapped; everything else gets one wrapper carrying the prefix.  Returns a failure key."""
+    unwrapped; everything else gets one wrapper carrying the prefix.  Returns a failure key.
+    (`component`: the field is a component of an object array / multivector.)"""
     kind = leaf_kind(e)
     C = p.CommonSubexpression
     if kind in ("constant", "variable", "subscript"):
@@ -825,16 +833,35 @@ def check_scalar_wrap(helper, e, prefix, scope, r):
             return f"{helper_name(helper)}-changes-{kind}"
         return None
     if kind == "wrapper":
-        if isinstance(r, C) and type(r.child) is C and same_tree(r.child, e):
-            return f"{helper_name(helper)}-wraps-wrapper"
+        if isinstance(r, C) and isinstance(r.child, C) and same_tree(r.child, e):
+            return f"{helper_name(helper)}-wraps-wrapper" + rewrap_request(helper, e, scope)
         if not isinstance(r, C) or not same_tree(r.child, e.child):
             return f"{helper_name(helper)}-changes-wrapper"
         return None
     if not isinstance(r, C) or type(r.child) is not type(e) or not same_tree(r.child, e):
         return f"{helper_name(helper)}-does-not-wrap"
-    if r.prefix != prefix:
+    if component:
+        # a component's prefix is derived from the requested one (index / blade name appended)
+        ok = r.prefix is None if prefix is None else (isinstance(r.prefix, str)
+                                                      and r.prefix.startswith(prefix))
+        if not ok:
+            return f"{helper_name(helper)}-loses-prefix"
+    elif r.prefix != prefix:
         return f"{helper_name(helper)}-loses-prefix"
     return None
+
+
+def rewrap_request(helper, e, scope) -> str:
+    """which request re-wrapped the already wrapped node `e` (suffix of the failure key): the scope
+    asked for is the default one (omitted / None / EVALUATION), the wrapper's own, or another
+    non-default one (the last is the shape of the known finding `make-cse-wraps-wrapper`)"""
+    if helper != "make":
+        return ""
+    if scope is None or scope == EVAL:
+        return ":default-scope-requested"
+    if scope == e.scope:
+        return ":own-scope-requested"
+    return ""
 
 
 class WrapStream(Stream):
@@ -845,6 +872,12 @@ class WrapStream(Stream):
         g = ExprGen(rng, cse=0.3, floats=0.05)
         for _ in range(150 if tier == "quick" else 3000):
             subj.append(g.gen(rng.choice(["num", "any", "bool", "int"]), rng.randint(0, 3)))
+        # already wrapped nodes of every flavour (prefix x scope) around generated children: each
+        # is met by every request (prefix x scope) below
+        for _ in range(24 if tier == "quick" else 400):
+            child = g.gen(rng.choice(["num", "any", "int"]), rng.randint(0, 2))
+            subj.append(p.CommonSubexpression(child, rng.choice([None, "w", "cs"]),
+                                              rng.choice([EVAL, EXPR, GLOB])))
         for e in subj:
             try:
                 es = dumps(expr_to_sx(e))
@@ -925,11 +958,41 @@ class WrapArrayStream(Stream):
             idx = [rng.randrange(nsub) for _ in range(k)]
             yield {"container": container, "subjects": idx, "helper": ["make", "make", "wrap"][i % 3],
                    "prefix": rng.choice([None, "pre"]), "scope": rng.choice([None, EVAL, EXPR])}
+        # containers with already wrapped components of every flavour (prefix x scope) next to
+        # composite ones, under every request
+        n = 120 if tier == "quick" else 2000
+        plain = [j for j, e in enumerate(wrap_subjects())
+                 if isinstance(e, (int, float, p.Expression)) and leaf_kind(e) in (None, "constant")]
+        for i in range(n):
+            container = ["array1", "mv", "array2"][i % 3]
+            k = rng.randint(1, 4) if container != "array2" else 4
+            comps = []
+            for _ in range(k):
+                if rng.random() < 0.6:
+                    comps.append(["w", rng.randrange(nsub), rng.choice([None, "w", "cs"]),
+                                  rng.choice([EVAL, EXPR, GLOB])])
+                else:
+                    comps.append(rng.choice(plain))
+            yield {"container": container, "subjects": comps, "helper": "make",
+                   "prefix": rng.choice([None, "pre"]), "scope": rng.choice([None, EVAL, EXPR, GLOB])}
+
+    @staticmethod
+    def _subject(subj, i):
+        """an entry of `subjects`: an index into wrap_subjects(), or `["w", index, prefix, scope]` =
+        that subject (its wrapper removed, if it has one) inside a wrapper of that flavour"""
+        if isinstance(i, int):
+            return subj[i]
+        c = subj[i[1]]
+        while isinstance(c, p.CommonSubexpression):
+            c = c.child
+        if isinstance(c, (str, tuple)) or c is None:
+            c = p.Variable("v")
+        return p.CommonSubexpression(c, i[2], i[3])
 
     def _field(self, pl):
         import numpy as np
         subj = wrap_subjects()
-        comps = [subj[i] for i in pl["subjects"]]
+        comps = [self._subject(subj, i) for i in pl["subjects"]]
         comps = [c if not isinstance(c, (str, tuple)) and c is not None else p.Variable("v")
                  for c in comps]
         if pl["container"] == "mv":
@@ -970,6 +1033,13 @@ class WrapArrayStream(Stream):
                 return Failure(f"{h}-not-componentwise", f"{type(r).__name__} for an object array "
                                f"of shape {field.shape}", pl)
             pairs = [(field[i], r[i]) for i in np.ndindex(field.shape)]
+        # the property sentence component by component (independent of the helper itself)
+        # (already wrapped components are judged first)
+        for c, rc in sorted(pairs, key=lambda cr: leaf_kind(cr[0]) != "wrapper"):
+            key = check_scalar_wrap(pl["helper"], c, pl["prefix"], pl["scope"], rc, component=True)
+            if key is not None:
+                return Failure(key, f"component {c!r} of the {pl['container']} became {rc!r} "
+                               f"(prefix={pl['prefix']!r}, scope={pl['scope']!r})", pl)
         for c, rc in pairs:
             want = call_helper(pl["helper"], c, pl["prefix"], pl["scope"])
             try:
@@ -984,7 +1054,7 @@ class WrapArrayStream(Stream):
 
     def nontrivial_key(self, pl, model, impl):
         return dumps([pl["container"], pl["helper"], str(pl["prefix"]), str(pl["scope"]),
-                      *pl["subjects"]])
+                      *[str(i) for i in pl["subjects"]]])
 
     def stats(self, pl, mo, io, acc):
         acc[pl["container"]] = acc.get(pl["container"], 0) + 1
@@ -1513,6 +1583,369 @@ class TallyStream(Stream):
 # }}}
 
 
+# {{{ lists that already contain wrappers: the sharing clause with pre-existing wrappers
+
+WRAP_HEADS = FRAG_HEADS | {"CSE"}
+
+
+def in_wrapped_fragment(s) -> bool:
+    return all(isinstance(t, list) and t[0] in WRAP_HEADS for t in sx_subterms(s))
+
+
+def strip_wrappers(s):
+    """the expression without its wrappers (a wrapper means what its child means)"""
+    if isinstance(s, Atom) or not isinstance(s, list):
+        return s
+    if s and s[0] == "CSE":
+        return strip_wrappers(s[1])
+    return [strip_wrappers(c) for c in s]
+
+
+def wrapper_flavour(*stack) -> str:
+    """of a wrapper S-expression `(CSE child prefix scope)` (or of wrappers directly around one
+    another, outermost first: prefixed / scoped if one of them is)"""
+    prefixed = any(not isinstance(s[2], Atom) for s in stack)
+    scoped = any(s[3] != EVAL for s in stack)
+    return {(False, False): "in-plain", (True, False): "in-prefixed", (False, True): "in-scoped",
+            (True, True): "in-prefixed-scoped"}[(prefixed, scoped)]
+
+
+def operation_occurrences(sxs):
+    """every operation node of the inputs (wrappers looked through) as
+    `(class up to wrappers, class as written, tag, prefix of the wrapper directly around it, size)`;
+    the first class is taken up to the operand order of nested sums / products as well (a tagged
+    tree holds the canonical wrapper of an operand, whose child may be a commuted copy of it), the
+    second (operands as written, wrappers included) is what may be performed once each;
+    tag: `bare` (no wrapper above it), `below-wrapper` (inside a pre-existing wrapper, not directly),
+    `in-plain` / `in-prefixed` / `in-scoped` / `in-prefixed-scoped` (the child of a wrapper)"""
+    occ = []
+
+    def walk(s, direct, below):
+        if isinstance(s, Atom) or not isinstance(s, list):
+            return
+        if s[0] == "CSE":
+            walk(s[1], direct + (s,), True)
+            return
+        if s[0] in OP_HEADS:
+            tag = wrapper_flavour(*direct) if direct else ("below-wrapper" if below else "bare")
+            # the prefix that names the operation: the innermost one of the wrappers around it
+            pref = next((w[2] for w in reversed(direct) if not isinstance(w[2], Atom)), None)
+            st = strip_wrappers(s)
+            occ.append((recursive_class(st), onelevel_class(s), tag, pref, len(list(sx_subterms(st)))))
+        for _p, c in sx_children(s):
+            walk(c, (), below)
+    for s in sxs:
+        walk(s, (), False)
+    return occ
+
+
+def suboperation_classes(sxs):
+    """{class up to wrappers: classes of the operations strictly inside an occurrence of it}"""
+    inside = {}
+
+    def walk(s):
+        """returns the classes of all operations in `s` (wrappers looked through)"""
+        if isinstance(s, Atom) or not isinstance(s, list):
+            return set()
+        if s[0] == "CSE":
+            return walk(s[1])
+        below = set()
+        for _p, c in sx_children(s):
+            below |= walk(c)
+        if s[0] in OP_HEADS:
+            k = recursive_class(strip_wrappers(s))
+            inside.setdefault(k, set()).update(below)
+            return below | {k}
+        return below
+    for s in sxs:
+        walk(s)
+    return inside
+
+
+class PrewrappedGen:
+    """lists in which a pre-existing wrapper (every combination of prefix and scope) and further
+    occurrences of its child -- or of an operation strictly inside its child -- meet: bare, with the
+    operands of a sum / product in another order, inside or directly under a second wrapper of
+    another flavour, the same wrapper again; each occurrence in a random context, the list in a
+    random order."""
+
+    PREFIXES = (None, None, None, "a", "cs")
+    SCOPES = (EVAL, EXPR, GLOB)
+    OTHERS = ("bare", "commuted", "inside-other-wrapper", "under-other-wrapper", "wrapper-again")
+
+    def __init__(self, rng):
+        self.rng = rng
+
+    def leaf(self):
+        r = self.rng
+        return p.Variable(r.choice("xyz")) if r.random() < 0.7 else r.choice([2, 3, -1, 5])
+
+    def op(self, depth):
+        """an operation node of the fragment"""
+        r = self.rng
+
+        def kid():
+            return self.op(depth - 1) if depth > 1 and r.random() < 0.6 else self.leaf()
+        k = r.choice(["sum", "prod", "sum", "prod", "quot", "pow", "call", "call"])
+        if k in ("sum", "prod"):
+            return (p.Sum if k == "sum" else p.Product)(tuple(kid() for _ in range(r.randint(2, 3))))
+        if k == "quot":
+            return p.Quotient(kid(), kid())
+        if k == "pow":
+            return p.Power(kid(), r.randint(2, 3))
+        return p.Call(p.Variable(r.choice("fg")), tuple(kid() for _ in range(r.randint(1, 2))))
+
+    def context(self, e):
+        """`e` as an operand of a few enclosing operations (or as it is)"""
+        r = self.rng
+        for _ in range(r.choice([0, 1, 1, 1, 2])):
+            lf = self.leaf()
+            e = r.choice([
+                lambda: p.Product((e, lf)), lambda: p.Sum((lf, e)), lambda: p.Quotient(e, lf),
+                lambda: p.Quotient(lf, e), lambda: p.Power(e, 2),
+                lambda: p.Call(p.Variable(r.choice("fg")), (e,)), lambda: p.Sum((e, lf, e)),
+            ])()
+        return e
+
+    @staticmethod
+    def strict_ops(e):
+        """the operation nodes strictly inside `e`"""
+        res = []
+
+        def walk(c, top):
+            if not isinstance(c, p.Expression) or isinstance(c, p.Variable):
+                return
+            if not top:
+                res.append(c)
+            if isinstance(c, (p.Sum, p.Product)):
+                kids = c.children
+            elif isinstance(c, p.Quotient):
+                kids = (c.numerator, c.denominator)
+            elif isinstance(c, p.Power):
+                kids = (c.base, c.exponent)
+            else:
+                kids = c.parameters
+            for k in kids:
+                walk(k, False)
+        walk(e, True)
+        return res
+
+    def commuted(self, e):
+        if isinstance(e, (p.Sum, p.Product)) and len(e.children) > 1:
+            kids = list(e.children)
+            first = kids[0]
+            for _ in range(4):
+                self.rng.shuffle(kids)
+                if kids[0] is not first:
+                    break
+            return type(e)(tuple(kids))
+        return e
+
+    def build(self, target, prefix, scope, other, wrapper_first=None):
+        """one list: `target` = "whole" (the wrapper's child recurs) / "inner" (an operation strictly
+        inside it recurs); (prefix, scope) the flavour of the wrapper; `other`: how it recurs"""
+        r = self.rng
+        body = self.op(r.randint(2, 3) if target == "inner" else r.randint(1, 2))
+        inner = self.strict_ops(body)
+        rep = r.choice(inner) if target == "inner" and inner else body
+        w = p.CommonSubexpression(body, prefix, scope)
+        C = p.CommonSubexpression
+        p2, s2 = r.choice(self.PREFIXES), r.choice(self.SCOPES)
+        if other == "bare":
+            second = [rep]
+        elif other == "commuted":
+            second = [self.commuted(rep)]
+        elif other == "inside-other-wrapper":
+            lf = self.leaf()
+            second = [C(r.choice([p.Sum((rep, lf)), p.Product((lf, rep)), p.Power(rep, 2)]), p2, s2)]
+        elif other == "under-other-wrapper":
+            second = [C(rep, p2, s2)]
+        else:
+            second = [w, self.commuted(rep) if r.random() < 0.5 else rep]
+        if r.random() < 0.3:
+            second.append(self.commuted(rep) if r.random() < 0.5 else rep)
+        es = [self.context(w)] + [self.context(e) for e in second]
+        if r.random() < 0.25:
+            es.append(self.context(self.op(1)))
+        first = es[0]
+        r.shuffle(es)
+        if wrapper_first is not None:
+            es.remove(first)
+            es.insert(0 if wrapper_first else len(es), first)
+        return es
+
+
+class PrewrappedStream(TallyStream):
+    """tag a list that already contains wrappers, evaluate ALL tagged expressions with one
+    evaluator (handlers logged, counting numbers): the handler log, tally and calls against the
+    Lean counting evaluator, and the property's sharing clause read with wrappers looked through:
+    an operation (operands as written, a sum / product up to their order) is performed once however
+    often, and under whatever pre-existing wrappers, it occurs in the input."""
+    name = "prewrapped"
+    _n_repeating = 0
+    _flavours: dict = {}
+
+    def cases(self, rng, tier):
+        g = PrewrappedGen(rng)
+        grid = list(itertools.product(("whole", "inner"), (None, "a"), g.SCOPES, g.OTHERS, (True, False)))
+        reps = 1 if tier == "quick" else 12
+        for _ in range(reps):
+            for target, prefix, scope, other, wfirst in grid:
+                yield from self._case(g.build(target, prefix, scope, other, wfirst), rng,
+                                      f"{target}/{other}")
+        n = 700 if tier == "quick" else 12000
+        for i in range(n):
+            if i % 4 == 3:
+                es, fam = SharedGen(rng, "wrapped").lists(), "pool"
+            else:
+                target, other = rng.choice(("whole", "inner")), rng.choice(g.OTHERS)
+                es = g.build(target, rng.choice(g.PREFIXES), rng.choice(g.SCOPES), other)
+                fam = f"{target}/{other}"
+            yield from self._case(es, rng, fam)
+
+    @staticmethod
+    def _case(es, rng, family):
+        env = tally_env(rng)
+        try:
+            sxs = [expr_to_sx(e) for e in es]
+        except Exception:
+            return
+        if not all(in_wrapped_fragment(s) for s in sxs) or not all(is_safe(e, env) for e in es):
+            return
+        yield {"family": family, "env": dumps(env_to_sx(env)), "exprs": [dumps(s) for s in sxs]}
+
+    def run_impl(self, pl):
+        from pymbolic.cse import tag_common_subexpressions
+        exprs, env = self._inputs(pl)
+        try:
+            tagged = tag_common_subexpressions(exprs)
+        except RecursionError:
+            raise
+        except Exception as ex:
+            return tag_err_sx(ex)
+        try:
+            t, nodes = self._run(tagged, env)
+            run = [A("run"), sx_list("nodes", [expr_to_sx(n) for n in nodes]),
+                   sx_list("tally", [t.n.get(k, 0) for k in ("add", "mul", "div", "floordiv", "mod", "pow")]
+                           + [sum(v for k, v in t.n.items() if k.startswith("call:"))]),
+                   sx_list("calls", [[name] + [_q(v) for v in vals] for name, vals in t.calls])]
+        except RecursionError:
+            raise
+        except Exception as ex:
+            run = [A("raised"), A(type(ex).__name__)]
+        return dumps([A("ok"), run])
+
+    def agree(self, model, impl, pl):
+        # the model's reference plan / tally is defined for inputs without wrappers: only the run
+        # (handler log, tally, calls) is compared here
+        try:
+            mo, io = loads(model), loads(impl)
+        except Exception:
+            return "diff"
+        if isinstance(mo, list) and isinstance(io, list) and len(mo) == 4 and len(io) == 2 \
+                and mo[0] == "ok" and io[0] == "ok":
+            return super().agree(model, dumps(io + mo[2:]), pl)
+        return "ok" if model == impl else "diff"
+
+    def oracle(self, pl):
+        from pymbolic.cse import tag_common_subexpressions
+        exprs, env = self._inputs(pl)
+        in_sx = [loads(s) for s in pl["exprs"]]
+        if not all(in_wrapped_fragment(s) for s in in_sx):
+            return None
+        try:
+            tagged = tag_common_subexpressions(exprs)
+        except Exception as ex:
+            return Failure("tagging-raises-on-fragment", repr(ex), pl)
+        if len(tagged) != len(exprs):
+            return Failure("length-differs", f"{len(exprs)} expressions in, {len(tagged)} out", pl)
+        out_sx = [expr_to_sx(t) for t in tagged]
+        if not any(has_nested_wrapper(s) for s in in_sx) and any(has_nested_wrapper(s) for s in out_sx):
+            return Failure("wrapper-around-wrapper", f"output {[dumps(s) for s in out_sx]}", pl)
+        stripped = [strip_wrappers(s) for s in in_sx]
+        try:
+            _, want_vals = reference_counts(stripped, env, onelevel_class, count_consts=True)
+        except Exception:
+            return None          # an operand fails to evaluate: nothing to compare / count
+        t = Tally()
+        nodes = []
+        m = make_tally_eval(counting_env(env, t), t, nodes)
+        for k, e in enumerate(tagged):
+            try:
+                got = m(e)
+            except Exception as ex:
+                return Failure("tagged-raises", f"expression #{k}: the original evaluates to "
+                               f"{_v(want_vals[k])!r}, the tagged {dumps(out_sx[k])} raises {ex!r}", pl)
+            if _v(got) != _v(want_vals[k]):
+                return Failure("value-differs", f"expression #{k}: original means "
+                               f"{_v(want_vals[k])!r}, tagged {dumps(out_sx[k])} evaluated with the "
+                               f"one evaluator gives {_v(got)!r}", pl)
+        # each operation once: how often was a handler run for it, how often may it be
+        occ = operation_occurrences(in_sx)
+        written = {}
+        for sc, wc, _tag, _pref, _size in occ:
+            written.setdefault(sc, set()).add(wc)
+        performed = {}
+        for n in nodes:
+            sc = recursive_class(strip_wrappers(expr_to_sx(n)))
+            performed[sc] = performed.get(sc, 0) + 1
+        if any(len(v) > 1 for v in written.values()) or len(occ) > len(written):
+            PrewrappedStream._n_repeating += 1
+        over = {sc for sc, k in performed.items() if k > len(written.get(sc, ()))}
+        if not over:
+            return None
+        # an operation inside a repeated one is repeated with it: report the outermost ones
+        inside = suboperation_classes(in_sx)
+        roots = [sc for sc in over if not any(sc in inside.get(o, ()) for o in over if o != sc)] \
+            or sorted(over)
+        found = []
+        for sc in roots:
+            mine = [o for o in occ if o[0] == sc]
+            tags = sorted({o[2] for o in mine})
+            # what distinct prefixes around the operation explain (one wrapper per prefix, plus one
+            # for the occurrences without a prefix): the shape of the known finding
+            by_prefix = 0
+            for wc in written[sc]:
+                prefs = {o[3] for o in mine if o[1] == wc}
+                by_prefix += len(prefs)
+            if performed[sc] <= by_prefix:
+                # wrappers with different prefixes are DISTINCT wrappers: the property asks that
+                # the child of each distinct wrapper is computed once, not that they merge (and
+                # the sharing clause is about inputs without wrappers).  No verdict.
+                continue
+            key = "operation-repeated:" + "+".join(tags)
+            found.append((key == "operation-repeated:under-distinct-prefixes", -max(o[4] for o in mine),
+                          key, sc, performed[sc], len(written[sc])))
+        if not found:
+            return None
+        found.sort()
+        _known, _size, key, sc, k, allowed = found[0]
+        return Failure(key, f"the operation {sc} of the input is performed {k} times by one "
+                       f"evaluator over all tagged expressions ({allowed} allowed: once per way "
+                       f"its operands are written); tagged = {[dumps(s) for s in out_sx]}", pl)
+
+    def nontrivial_key(self, pl, model, impl):
+        if "(run " not in impl or "(CSE" not in impl:
+            return None
+        return " ".join(pl["exprs"]) + pl["env"]
+
+    def stats(self, pl, mo, io, acc):
+        k = ("run" if "(run " in io else "raised" if "(raised" in io else "err")
+        acc.setdefault("outcomes", {})
+        acc["outcomes"][k] = acc["outcomes"].get(k, 0) + 1
+        fam = acc.setdefault("family", {})
+        fam[pl["family"]] = fam.get(pl["family"], 0) + 1
+        fl = acc.setdefault("wrapper_flavours", {})
+        for s in pl["exprs"]:
+            for t in sx_subterms(loads(s)):
+                if isinstance(t, list) and t and t[0] == "CSE":
+                    f = wrapper_flavour(t)
+                    fl[f] = fl.get(f, 0) + 1
+        acc["inputs_repeating_an_operation"] = PrewrappedStream._n_repeating
+
+# }}}
+
+
 # {{{ T-gen: the table interpreters run on the regenerated tables, and the histogram tagger model
 
 class TableTagStream(TagTreeStream):
@@ -1666,10 +2099,10 @@ def extract(ctx=None):
 PROP = Prop(
     id="C12",
     title="Common-subexpression handling keeps meaning and shares work",
-    lean_targets=["PV.Properties.C12", "PV.Properties.C12Table"],
+    lean_targets=["PV.Properties.C12", "PV.Properties.C12Table", "PV.Properties.C12Wrapped"],
     extractors=[extract],
     streams=[TagStream(), TagTreeStream(), UseCountStream(), WrapStream(), WrapArrayStream(), TraceStream(),
-             TagMapperStream(), TallyStream(),
+             TagMapperStream(), TallyStream(), PrewrappedStream(),
              TableTagStream(), TableCountStream(), TableWrapStream(), HistTagStream(), TableHistTagStream()],
     probes=[probe_findings],
     trusted_base=[
